@@ -2,7 +2,7 @@
 which check reports it: seeded/<id>/meta.json['caught_by'] and seeded/MATRIX.md.
 usage: python3 tools/seedmatrix.py [seed ids...]   (default: all);  env SEED_ALL=1: run every related check even after a catch"""
 import json, os, subprocess, sys, glob, re, time
-VERIF = os.environ.get('VERIF_DIR', '/verif')     # a vp-run snapshot may stand in for /verif
+VERIF = os.path.abspath(os.environ.get('VERIF_DIR', '/verif'))     # a vp-run snapshot may stand in for /verif
 ROOT = VERIF + '/seeded'
 WT = os.environ.get('SEED_WT', '/tmp/wt/seedm')
 OUT = '/tmp/wt/seedm-out'
